@@ -443,6 +443,11 @@ def run_D(R, rel, bi, name, lt):
             a, b = byi[c], bycol[j][i]
             if not (a == b or (a != a and b != b)):
                 R.fail(sig + ':index-vs-column', '%s: [%d][%r] = %r but [%r][%d] = %r' % (where, i, c, a, c, i, b)); return
+        if i in (rows[0], rows[-1], rows[len(rows) // 2]):
+            # the same row counted from the end (a negative row index, as for any Python sequence)
+            byneg = lt[i - len(names)]
+            if byneg is None or byneg.get('key') != n or any(not (byneg[c] == byi[c] or (byneg[c] != byneg[c] and byi[c] != byi[c])) for c in cols):
+                R.fail(sig + ':negative-index', '%s: [%d] and [%d] differ' % (where, i - len(names), i)); return
         if count[n] > 1: continue
         byn = lt[n]
         if byn is None or byn.get('key') != n:
